@@ -76,9 +76,9 @@ def render_osu(ab, meta=None):
         x = int((512 * c + 256) // keys)
         t0 = int(ms_of_q(ab, q0))
         if q1 is None:
-            L.append(f"{x},192,{t0},1,0,0:0:0:0:")
+            L.append(f"{x},192,{t0},{[1, 1, 5, 21, 65][(c + q0) % 5]},0,0:0:0:0:")   # new-combo / colour-skip bits do not change the kind
         else:
-            L.append(f"{x},192,{t0},128,0,{int(ms_of_q(ab, q1))}:0:0:0:0:")
+            L.append(f"{x},192,{t0},{[128, 128, 132, 148, 164][(c + q0) % 5]},0,{int(ms_of_q(ab, q1))}:0:0:0:0:")
     return L
 
 
